@@ -73,6 +73,10 @@ def rand_cfg(rng, name, dim, mode_choices=(1, 2, 7, 64, 200, 1000)):
                 break
             cfg["len_scale"] = float(np.exp(rng.uniform(np.log(0.2), np.log(20.0))))
         cfg["var_factor"] = vf
+    if rng.random() < 0.5:
+        # rotation angles on an isotropic model: the model (and the field) must not depend on them
+        ang = rng.uniform(0.2, 3.0, size=1 if dim == 2 else 3) * rng.choice([-1.0, 1.0], size=1 if dim == 2 else 3)
+        cfg["opt"] = dict(cfg["opt"], angles=[float(a) for a in ang])
     return cfg
 
 
@@ -388,6 +392,86 @@ def corr_options(ctx, rng, drv):
         run_ensemble(ctx, cfg, 200, rng.choice(2 ** 31 - 1, size=200, replace=False), xs)
 
 
+def corr_frames(ctx, rng, drv):
+    """which positions the generator sees.  Isotropic model with rotation angles: the user's positions (the field is bitwise
+    the field of the same model without angles: same solenoidal field, mean along the first axis).  Anisotropic models
+    (outside the property: C16_rotated_or_stretched_not_solenoidal): the isometrized positions M x with unchanged components,
+    and the finite-difference divergence equals the formula of C16_divergence_linear_map."""
+    import gstools as gs
+    from gstools.tools.geometric import matrix_isometrize
+    ncfg = 10 if ctx.tier == "thorough" else 3
+    for dim in (2, 3):
+        for c in range(ncfg):
+            name = CLASSES[int(rng.integers(len(CLASSES)))] if c else "Gaussian"
+            cfg = rand_cfg(rng, name, dim, mode_choices=(2, 7, 33))
+            k = 1 if dim == 2 else 3
+            angles = [float(a) for a in rng.uniform(0.2, 3.0, size=k) * rng.choice([-1.0, 1.0], size=k)]
+            anis = [float(a) for a in np.exp(rng.uniform(np.log(0.2), np.log(3.0), size=dim - 1))]
+            opt0 = {kk: v for kk, v in cfg["opt"].items() if kk != "angles"}
+            npts = [1, dim, 5][c % 3]
+            pos = np.ascontiguousarray(rng.uniform(-5, 5, size=(dim, npts)) * cfg["len_scale"])
+            for variant, extra in (("isotropic+angles", dict(angles=angles)), ("anis", dict(anis=anis)),
+                                   ("anis+angles", dict(anis=anis, angles=angles))):
+                case = dict(cfg, variant=variant, extra=extra, pos=hexarr(pos))
+                try:
+                    with warnings.catch_warnings():
+                        warnings.simplefilter("ignore")
+                        srf = make_srf(dict(cfg, opt=dict(opt0, **extra)))
+                        f = np.asarray(srf(tuple(pos), mesh_type="unstructured"))
+                        ks, z1, z2 = (np.ascontiguousarray(a) for a in modes_of(srf))
+                        var = float(srf.model.var); N = cfg["mode_no"]
+                        M = np.asarray(matrix_isometrize(dim, srf.model.angles, srf.model.anis))
+                        if variant == "isotropic+angles":
+                            seen = pos
+                            plain = np.asarray(make_srf(dict(cfg, opt=opt0))(tuple(pos), mesh_type="unstructured"))
+                        else:
+                            seen = np.ascontiguousarray(np.asarray(srf.model.isometrize(pos)))
+                        mod = np.asarray(drv.call("generate", cfg["mean_u"], var, ("z", N), ks, z1, z2, seen, np.zeros_like(pos)))
+                        from gstools.field import summator as S
+                        sm = np.asarray(S.summate_incompr(ks, z1, z2, seen))
+                except Exception as e:
+                    ctx.violation("correspondence: frames", "unexpected exception %r" % (e,), case, key="frames:exception")
+                    continue
+                ctx.count(("frames", variant, name, dim, npts), hist=dict(stage="frames-correspondence", variant=variant, dim=dim))
+                amp = cfg["mean_u"] * math.sqrt(var / N)
+                tol = wrapper_tol(cfg["mean_u"], amp, sm, np.zeros_like(sm))
+                if variant == "isotropic+angles":
+                    if not C.bit_equal(f, plain):
+                        # the field of an isotropic model depends on its (meaningless) rotation angles: follow with the divergence probe
+                        ctx.violation("correspondence: isotropic model with angles vs the same model without angles",
+                                      "SRF(generator='VectorField') of an isotropic model changes with the rotation angles %r: max |diff| %.3g"
+                                      % (angles, float(np.max(np.abs(f - plain)))), dict(case, got=hexarr(f), plain=hexarr(plain)),
+                                      key="frames:isotropic-angles", no_input=True)
+                        x = np.ascontiguousarray(rng.uniform(-10, 10, size=(dim, 6)) * cfg["len_scale"])
+                        run_divergence(ctx, dict(cfg, opt=dict(opt0, **extra), mode_no=max(cfg["mode_no"], 7)), x)
+                        continue
+                if f.shape != mod.shape or not (np.abs(f - mod) <= tol).all():
+                    ctx.violation("correspondence: SRF %s vs model at the %s positions" % (variant, "given" if seen is pos else "isometrized"),
+                                  "max |diff| %.3g" % (float(np.max(np.abs(f - mod))) if f.shape == mod.shape else float("nan")),
+                                  dict(case, got=hexarr(f), model=hexarr(mod)), key="frames:%s" % variant, no_input=True)
+                    continue
+                if variant != "isotropic+angles":
+                    # divergence in the user's coordinates = amp sum_j W'_j sum_d p_d(k_j) (M^T k_j)_d   (C16_divergence_linear_map)
+                    k2 = (ks ** 2).sum(0)
+                    e1 = np.zeros(dim); e1[0] = 1.0
+                    P = e1[:, None] - ks * ks[0] / k2
+                    coeff = (P * (M.T @ ks)).sum(0)
+                    ph = ks.T @ seen
+                    pred = amp * ((z2[:, None] * np.cos(ph) - z1[:, None] * np.sin(ph)) * coeff[:, None]).sum(0)
+                    kM = np.abs(M.T @ ks)
+                    h = 1e-4 / max(float(kM.max()), 1e-300)
+                    est = np.zeros(npts)
+                    for d in range(dim):
+                        xp = pos.copy(); xp[d] += h; xm = pos.copy(); xm[d] -= h
+                        fp = np.asarray(srf(tuple(xp), mesh_type="unstructured")); fm = np.asarray(srf(tuple(xm), mesh_type="unstructured"))
+                        est += (fp[d] - fm[d]) / (xp[d] - xm[d])
+                    scale = abs(amp) * (np.hypot(z1, z2) * np.abs(P).sum(0) * kM.max(0)).sum() + 1e-300
+                    if not (np.abs(est - pred) <= 1e-5 * scale).all():
+                        ctx.violation("correspondence: divergence of an anisotropic/rotated field vs C16_divergence_linear_map",
+                                      "finite-difference divergence %r, formula %r (scale %.3g)" % (est.tolist(), pred.tolist(), scale),
+                                      case, key="frames:divergence-formula:%s" % variant, no_input=True)
+
+
 # ----------------------------------------------------------------------------------------------- probes
 
 def modes_of(srf):
@@ -679,7 +763,7 @@ def probe_pointwise(ctx, rng):
 def apply_history(rng, cfg):
     """a second configuration of the same class reached by re-assigning public parameters (changes well above the
     isclose tolerance of the model comparison); returns (cfgB, ordered list of re-assigned names)"""
-    names = [n for n in ("mean_u", "var", "len_scale", "mode_no", "seed") if rng.random() < 0.6] or ["mean_u"]
+    names = [n for n in ("mean_u", "var", "len_scale", "mode_no", "seed", "angles") if rng.random() < 0.6] or ["mean_u"]
     B = dict(cfg)
     if "mean_u" in names:
         B["mean_u"] = float(cfg["mean_u"] * rng.choice([-3.1, -0.4, 0.3, 2.3, 0.0, -0.0]))
@@ -691,6 +775,9 @@ def apply_history(rng, cfg):
         B["mode_no"] = int(cfg["mode_no"] + rng.choice([1, 9, 30]))
     if "seed" in names:
         B["seed"] = int(rng.integers(0, 2 ** 31 - 1))
+    if "angles" in names:
+        k = 1 if cfg["dim"] == 2 else 3
+        B["opt"] = dict(cfg["opt"], angles=[float(a) for a in rng.uniform(-3.0, 3.0, size=k)])
     if cfg["cls"] in TPL and "len_scale" in names and "var" not in names:
         names.append("var")          # var = var_raw * var_factor(len_scale): len_scale alone would change var; re-assign var too
     first = [n for n in ("len_scale", "var") if n in names]          # var last of the two: var = var_raw * var_factor(len_scale)
@@ -733,6 +820,8 @@ def probe_history(ctx, rng):
                         srf.generator.mode_no = B["mode_no"]
                     elif n == "seed":
                         call_seed = B["seed"]
+                    elif n == "angles":
+                        srf.model.angles = B["opt"]["angles"]
                 got = np.asarray(srf(tuple(pos), seed=call_seed, mesh_type="unstructured"))
                 fresh = np.asarray(make_srf(B)(tuple(pos), mesh_type="unstructured"))
                 # --- generator alone
@@ -743,7 +832,7 @@ def probe_history(ctx, rng):
                 for n in order:
                     if n == "mean_u":
                         g.mean_u = B["mean_u"]
-                    elif n in ("var", "len_scale"):
+                    elif n in ("var", "len_scale", "angles"):
                         g.update(mB)
                     elif n == "mode_no":
                         g.mode_no = B["mode_no"]
@@ -827,7 +916,9 @@ def run(ctx):
         "C16_variance and the uniform weights of C16_variance_split are explicit hypotheses, probed statistically over seeds",
         "the identification E[g(k_j)] = normalised integral over the sample_sphere parameterisation (a statement about the RNG)",
         "floating-point divergence: theorems are over R; the central-difference probe bounds the float behaviour numerically",
-        "anisotropic / rotated models are outside the property (the stretched field is not solenoidal)",
+        "anisotropic models are outside the property: SRF evaluates u(M x) with unchanged components, which is not solenoidal "
+        "(C16_divergence_linear_map gives its divergence, C16_rotated_or_stretched_not_solenoidal the witnesses); isotropic models "
+        "with rotation angles are inside (fixed in /repo: evaluated in the given coordinates)",
     ]
     ctx.tie["IncomprRandMeth.__call__ (generator.py)"] = "hand model incompr_call/velocity + correspondence"
     ctx.tie["compiled summator .so"] = "execution: bitwise vs extracted spec and translated kernel"
@@ -862,7 +953,8 @@ def run(ctx):
     try:
         stages = ([("kernel correspondence", lambda: corr_kernel(ctx, rng, drv)),
                    ("wrapper correspondence", lambda: corr_wrapper(ctx, rng, drv)),
-                   ("option cells", lambda: corr_options(ctx, rng, drv))] if drv is not None else []) + [
+                   ("option cells", lambda: corr_options(ctx, rng, drv)),
+                   ("frames (angles / anis)", lambda: corr_frames(ctx, rng, drv))] if drv is not None else []) + [
                   ("divergence probe", lambda: probe_divergence(ctx, rng)),
                   ("pointwise probe", lambda: probe_pointwise(ctx, rng)),
                   ("history probe", lambda: probe_history(ctx, rng)),
